@@ -58,7 +58,7 @@ def _config(draw):
         thr=draw(st.sampled_from([0.5, 0.0, 1.0])),
         outlier_prob=out,
         subtree_prob=draw(st.sampled_from([0.0, 0.5, 1.0])),
-        max_time=draw(st.sampled_from(["inf", "inf", "inf", 0.0])),
+        max_time=draw(st.sampled_from(["inf", "inf", 0.0, 3.6, "inf", 2.0, 5.5, 1.0])),
         seed=draw(st.integers(0, 2 ** 31 - 1)),
     )
 
@@ -161,6 +161,23 @@ def _eval_run(case):
     rng = np.random.default_rng(case["seed"])
     tags = dict(proposal=case["proposal"], outliers=case["outlier_prob"] > 0, conc=case["conc_update"], n=n)
     os.makedirs(SCRATCH, exist_ok=True)
+    import phyclone.run as prun
+
+    class FakeTimer:
+        """deterministic clock for time-limited runs: every `with timer:` block takes exactly one time unit"""
+
+        def __init__(self, func=None):
+            self.elapsed = 0.0
+
+        def __enter__(self):
+            return self
+
+        def __exit__(self, *a):
+            self.elapsed += 1.0
+
+    real_timer = prun.Timer
+    if max_time != float("inf"):
+        prun.Timer = FakeTimer
     try:
         with contextlib.redirect_stdout(io.StringIO()):
             res = run_phyclone_chain(
@@ -174,15 +191,31 @@ def _eval_run(case):
                     back = pickle.load(fh)
     except Exception as e:
         raise crash_violation("run", e, tags)
+    finally:
+        prun.Timer = real_timer
     trace = back[0]["trace"]
-    expected = [0] + [i for i in range(case["iters"]) if i % case["thin"] == 0]
     iters = [e["iter"] for e in trace]
     if max_time == float("inf"):
-        if iters != expected:
-            raise Violation("trace/iterations", "recorded iterations %r, expected %r (iters=%d thin=%d)" % (iters, expected, case["iters"], case["thin"]), tags)
+        expected = [0] + [i for i in range(case["iters"]) if i % case["thin"] == 0]
     else:
-        if iters != expected[: len(iters)] or len(iters) < 1:
-            raise Violation("trace/iterations", "recorded iterations %r are not a prefix of %r under a time limit" % (iters, expected), tags)
+        # model of the documented time limit with the unit-time clock: burn-in stops once the elapsed time exceeds the
+        # limit; the main loop records iteration i if it is a multiple of `thin` and stops after the first iteration
+        # that starts with elapsed >= limit
+        e = 0.0
+        for i in range(case["burnin"]):
+            stop = e > max_time
+            e += 1.0
+            if stop:
+                break
+        expected = [0]
+        for i in range(case["iters"]):
+            if i % case["thin"] == 0:
+                expected.append(i)
+            if e >= max_time:
+                break
+            e += 1.0
+    if iters != expected:
+        raise Violation("trace/iterations", "recorded iterations %r, expected %r (iters=%d thin=%d burnin=%d time limit=%s in unit-time blocks)" % (iters, expected, case["iters"], case["thin"], case["burnin"], case["max_time"]), tags)
     alphas = []
     for j, e in enumerate(trace):
         try:
